@@ -70,7 +70,10 @@ def gen_plan(seed: int, tier: str) -> dict:
             fsize = r.choice(REALISTIC)
             blen = r.choice([0, 1, fsize - 8, fsize - 7, fsize - 6, 2 * fsize, r.randrange(0, 5001)])
         enc = r.random() < 0.4 and fsize >= 24
-        return {"mode": "ble-func", "fsize": fsize, "blen": max(0, blen), "enc": enc, "rlen": r.choice([0, 1, blen, r.randrange(0, 400), r.randrange(0, 3000)]),
+        eff = fsize - (16 if enc else 0)
+        # response lengths aimed at the reassembly boundaries: first fragment carries eff-5 body bytes, continuations eff-2
+        aimed = max(0, (eff - 5) + r.choice([0, 1, 2, 3, 5]) * max(1, eff - 2) + r.choice([-1, 0, 0, 1, 2, 3]))
+        return {"mode": "ble-func", "fsize": fsize, "blen": max(0, blen), "enc": enc, "rlen": r.choice([0, 1, blen, aimed, aimed, r.randrange(0, 400), r.randrange(0, 3000)]),
                 "no_body": r.random() < 0.1, "policy": r.choice(["max", "max", "header_only_first", "tiny", "random"]), "fault": r.choice([None] * 6 + ["wrong_tid", "no_cont_flag", "wrong_cont_tid"]),
                 "status": r.choice([0] * 8 + [1, 3, 6]), "reps": r.choice([1, 2, 3]), "ops": []}
     return {"mode": "ble-full", "mtu": r.choice([23, 100, 158, 185, 247, 512]), "wwr": r.choice([0, 0, 20, 182, 244, 509]), "vlen": r.choice([0, 1, 2, 60, 90, 97, 200, 600, r.randrange(0, 3000)]),
@@ -307,6 +310,8 @@ def execute_coap(plan: dict, ch: Chooser) -> dict:
                     return {"wrong_tid": True}
                 if v == "bad_control":
                     return {"bad_control": 0x04}
+                if v == "ok0":
+                    return {"empty_body": True}
                 return None
 
             acc.item_plan = item_plan
@@ -335,6 +340,10 @@ def execute_coap(plan: dict, ch: Chooser) -> dict:
                     if bad:
                         if got is None or "status" not in got or not got["status"]:
                             ctx.violate("coap-item-error-hidden", f"read/{v[:2]}", f"item {i} ({v}) of {vec}: expected a per-item error for iid {c.iid}, got {got}")
+                    elif v == "ok0":
+                        ctx.probe("coap_read_item_with_empty_body")
+                        if got is None or got.get("status") or got.get("value") not in (b"", "", None):
+                            ctx.violate("coap-item-shifted", "read-empty-body", f"item {i} of {vec}: iid {c.iid} was answered success with an empty body but the result says {got} (results {res})")
                     else:
                         if got is None or got.get("value") != before[c.iid]:
                             ctx.violate("coap-item-shifted", "read", f"item {i} of {vec}: iid {c.iid} holds {before[c.iid]!r} but the result says {got} (results {res})")
